@@ -9,14 +9,23 @@ def main(argv=None):
     run = report.Run("C04", "model_checking")
     env.load_pygom()
     quick = run.tier == "quick"
-    seeds = ["SIR", "BD", "ONE"] if quick else ["SIR", "BD", "ONE", "CHAIN", "SEIRBD", "SIRS2", "DRAIN"]
-    dbound = 1 if quick else 2
+    qseeds = ["SIR", "BD", "ONE"]
+    seeds = qseeds if quick else ["SIR", "BD", "ONE", "CHAIN", "SEIRBD", "SIRS2", "DRAIN"]
+    dbound = 1
     defs, ngen = fam.gather_defs(seeds, dbound)
     seed_defs, _ = fam.gather_defs(seeds, 0)
-    # whole executions: deviation bound 2 on the seeds themselves, 1 (quick) / 2 (thorough) around them
+    # whole executions.  quick: deviation bound 1 on every definition within one edit of three seeds, 2 on the seeds.
+    # thorough: bound 1 on every definition within one edit of seven seeds (all initial states and horizons), bound 2 on
+    # the one-edit neighbourhood of the three quick seeds, bound 3 on the seeds themselves
     cfgs = fam.l2_configs(defs, run.tier)
-    bound = 1 if quick else 2
-    jobs = [(c, bound, 6000 if quick else 60000, "c04") for c in cfgs]
+    bound = 1
+    jobs = [(c, 1, 6000 if quick else 20000, "c04") for c in cfgs]
+    if not quick:
+        qdefs, _ = fam.gather_defs(qseeds, 1)
+        c2 = fam.l2_configs(qdefs, "quick")
+        jobs += [(c, 2, 60000, "c04") for c in c2]
+        cfgs = cfgs + c2
+        bound = 2
     extra = fam.l2_configs(seed_defs, run.tier, modes=fam.MODES[:3], near=True)
     # the deeper (and longer) explorations go first so that the pool stays busy
     jobs = [(c, 2 if quick else 3, 20000 if quick else 200000, "c04") for c in extra] + jobs
@@ -32,7 +41,7 @@ def main(argv=None):
         "distinct_nontrivial": nout + l1s,
         "rule": "L2: every execution of solve_stochast(T, 1, full_output=True) whose answers to the library's "
                 "exponential/poisson draws deviate from the default answer in at most %d places (%d on the seed "
-                "models; menus %s / %s) for %d event-only definitions within %d named-choice edits of seeds %s; "
+                "models; thorough: 1 on all, 2 on the one-edit neighbourhood of SIR/BD/ONE; menus %s / %s) for %d event-only definitions within %d named-choice edits of seeds %s; "
                 "L1: breadth-first search over integer states (population cap) calling the real firstReaction for "
                 "every ordering of the enabled clocks and the real tauLeap for every vector of poisson answers. "
                 "distinct = distinct recorded paths per configuration (L2) + distinct states (L1)" % (
